@@ -215,6 +215,12 @@ def casetable_case():
             qs.append({"fn": "glob", "start": 0, "path": ch, "ignorecase": ic, "relax": False})
             qs.append({"fn": "glob", "start": 0, "path": ch, "ignorecase": ic, "relax": True})
             qs.append({"fn": "get", "start": 0, "path": ch, "ignorecase": ic, "relax": True})
+    # a literal component followed by a wildcard that matches nothing: no dead end as long as the literal matches some child under
+    # re.IGNORECASE - whatever str.upper() says about the two spellings
+    for ch in chars:
+        for ic in (True, False):
+            qs.append({"fn": "glob", "start": 0, "path": ch + "/zz*", "ignorecase": ic, "relax": False})
+            qs.append({"fn": "glob", "start": 0, "path": ch + "/zz*", "ignorecase": ic, "relax": True})
     return {"fam": "resolve", "tree": t, "names": names, "sep": "/", "queries": qs, "unique": False, "typed": [], "cls": None,
             "casetable": True}
 
@@ -301,3 +307,22 @@ def unires_history(rng, t):
         qs.append({"start": start, "path": p, "ignorecase": ic, "relax": False})
         qs.append({"start": start, "path": p, "ignorecase": ic, "relax": True})
     return {"fam": "unires", "what": "history", "tree": t, "names": names, "sep": sep, "queries": qs, "unique": False}
+
+
+def casetable_sparse_case():
+    """the irregular letters alone: children named by the KELVIN, ANGSTROM and OHM signs, sharp s and the fi ligature, queried by the
+    spellings that are equal to them under only one of the two foldings - where a dead-end test made with the wrong folding shows"""
+    chars = ["\u212a", "\u212b", "\u2126", "\u00df", "\ufb01", "x"]
+    t = [0, [[i + 1, []] for i in range(len(chars))]]
+    names = [[0, "root"]] + [[i + 1, ch] for i, ch in enumerate(chars)]
+    qs = []
+    for q in ["k", "K", "\u00e5", "\u00c5", "\u03c9", "\u03a9", "\u1e9e", "ss", "SS", "fi", "FI", "\u212a", "\u00df", "X", "y"]:
+        for ic in (True, False):
+            for p in (q, q + "/zz*", "*/../" + q, q + "/.."):
+                qs.append({"fn": "glob", "start": 0, "path": p, "ignorecase": ic, "relax": False})
+                qs.append({"fn": "glob", "start": 0, "path": p, "ignorecase": ic, "relax": True})
+            qs.append({"fn": "glob", "start": 0, "path": q, "ignorecase": ic, "relax": False})
+            qs.append({"fn": "glob", "start": 0, "path": q, "ignorecase": ic, "relax": True})
+            qs.append({"fn": "get", "start": 0, "path": q, "ignorecase": ic, "relax": False, "pair": True})
+    return {"fam": "resolve", "tree": t, "names": names, "sep": "/", "queries": qs, "unique": True, "typed": [], "cls": None,
+            "casetable": True}
